@@ -243,7 +243,7 @@ class World:
         # fresh scan of the same tree, same configuration, no cache
         def fresh():
             cli.reset_config()
-            Configuration.exclude.extend(self.option)
+            cli.add_excludes(self.option)
             Configuration.load(Path("."))
             cb = Scanner.scan_path(Path("."))
             cb.aggregate()
